@@ -53,6 +53,11 @@ fn ops(cap: usize, vals: &[i32]) -> Vec<Op> {
         v.push(Op::Copy(i));
         v.push(Op::GetMutWrite(i, 9));
     }
+    // positions far outside any buffer: the type's boundaries and the 32-bit boundaries inside a 64-bit index
+    for i in [usize::MAX, usize::MAX - 1, usize::MAX / 2, 1usize << 31, (1usize << 31) + 1, u32::MAX as usize, (u32::MAX as usize) + 1] {
+        v.push(Op::Get(i));
+        v.push(Op::Copy(i));
+    }
     v
 }
 
